@@ -181,6 +181,8 @@ def negative_tests(acc_viol):
         "Point*Expression": lambda: p * e, "Expression*Point": lambda: e * p, "Point*list": lambda: p * [1.0],
         "Point*complex": lambda: p * 1j, "Point*ndarray": lambda: p.__mul__(np.array([1.0, 2.0])),
         "Point**3": lambda: p ** 3, "Point**0.5": lambda: p ** 0.5, "Point**1": lambda: d ** 1,
+        "Point**2.5": lambda: p ** 2.5, "Point**2.999": lambda: d ** 2.999, "Point**np.float64(2.5)": lambda: p ** np.float64(2.5),
+        "Point**-2": lambda: p ** -2, "Point**2.0000001": lambda: p ** 2.0000001,
         "Point/Point": lambda: p / q, "Point/Expression": lambda: p / e, "Point/str": lambda: p / "2",
         "Point/None": lambda: p / None,
         "Expression*Expression": lambda: e * f, "Expression*derived": lambda: g * g, "Expression+Point": lambda: e + p,
